@@ -48,6 +48,9 @@ func main() {
 			fmt.Println(k)
 		}
 		return
+	case "pool":
+		devPool()
+		return
 	case "asm":
 		devAsm()
 		return
